@@ -12,6 +12,7 @@ def plan(tier, seed):
     jobs = [ch("C01", H, "h_iter_dataframe_int", t, fun), ch("C01", H, "h_iter_dataframe_list", t, fun),
             ch("C01", H, "h_iter_dataframe_list_rest", t, fun),
             ch("C01", H, "h_levels_no_nulls", t, ["writer.make_definitions", "core.skip_definition_bytes"]),
+            ch("C01", H, "h_levels_with_nulls", t, ["writer.make_definitions (pages with NULLs)"]),
             dict(name="C01-lemma-dict-index-framing", kind="pyfunc", timeout=300,
                  payload=dict(func="vf.pyshim.lemmas:dict_index_framing")),
             dict(name="C01-lemma-type-tables", kind="pyfunc", timeout=300,
@@ -22,10 +23,14 @@ def plan(tier, seed):
                  payload=dict(func="vf.pyshim.lemma_tz:tz_offset_text")),
             dict(name="C01-lemma-time-roundtrip", kind="pyfunc", timeout=400,
                  payload=dict(func="vf.pyshim.lemma_time:time_roundtrip")),
+            dict(name="C01-lemma-timedelta-micros", kind="pyfunc", timeout=400,
+                 payload=dict(func="vf.pyshim.lemma_time:timedelta_micros")),
             dict(name="C01-lemma-range-index", kind="pyfunc", timeout=300,
                  payload=dict(func="vf.pyshim.lemmas:range_index", kwargs=dict(max_step=6)))]
     wc = wc_lattice.jobs("C01", tier)
     jobs += wc if tier == "thorough" else wc[:6]
+    jobs.append(ch("C01", "vf/pyshim/h_write.py", "h_write_new_options", t,
+                   ["writer.write (new dataset)", "writer.write_simple / write_multi / make_metadata (signatures)"]))
     # text/bytes values: pack -> unpack round trip of the BYTE_ARRAY codec without trailing padding (dictionary pages,
     # v2 data pages), lifted speedups.pyx
     from . import bytearray as BA
